@@ -274,6 +274,12 @@ def check_case(ctx, case):
                 viol("numbering", "pack_to_parquet:empty-part-file", None, names)
             if snap["metadata_row_groups"] != len(names):
                 viol("metadata", "pack_to_parquet:_metadata-row-groups", len(names), snap["metadata_row_groups"])
+            else:
+                want_md = [[len(snap["parts"][n_].get("ids") or []), n_] for n_ in names]
+                got_md = [[r_, os.path.basename(fp or "")] for r_, fp in (snap["metadata_detail"] or [])]
+                if [g[0] for g in got_md] != [w_[0] for w_ in want_md] or \
+                        any(g[1] and g[1] != w_[1] for g, w_ in zip(got_md, want_md)):
+                    viol("metadata", "pack_to_parquet:_metadata-describes-other-files", want_md, got_md)
             if len(ctx.samples) < 4:
                 ctx.sample({"kind": kind, "rows": len(df), "npartitions": k, "mode": mode,
                             "previous": case["previous"], "final_listing": sorted(snap["listing"]),
